@@ -35,7 +35,7 @@ Init == l = 1 /\ last = NoLast
 
 Ev == Trace[l]
 
-AssetClass(a) == CASE a = "XIN" -> 1 [] a = "BTC" -> 2 [] a = "OTH" -> 3 [] a = "NEW" -> 4
+AssetClass(a) == CASE a = "XIN" -> 1 [] a = "BTC" -> 2 [] a = "OTH" -> 3 [] a = "NEW" -> 4 [] a = "ZER" -> 5
 
 --------------------------------------------------------------------------
 (* C01 over observed quantities *)
